@@ -14,8 +14,9 @@
      sygma-core store/blockstore.go  GetStartBlock (latest -> nil; fresh -> configured;
             else the larger of stored (0 if absent) and configured)
      chains/util.go  CalculateStartingBlock (s - s mod i; nil -> error)
-     app/app.go  Run: per chain kind, which of these are composed and whether the result reaches
-            NewXChain(...).PollEvents -> ListenToEvents(ctx, start): the [wiring] record, whose
+     app/app.go  Run: per chain kind, which of these are composed, with which arguments (the quantity
+            the start block is aligned to, which start values pass through that call) and what
+            reaches NewXChain(...).PollEvents -> ListenToEvents(ctx, start): the [wiring] record, whose
             three instances are GENERATED into Gen/C05_Wiring.v by tools/wiring2coq.
 
    Block numbers are non-negative in every use (the generator and the well-formedness predicates
@@ -26,12 +27,40 @@ Local Open Scope Z_scope.
 
 Inductive kind := Evm | Sub | Btc.
 
+(* which quantity app.Run passes at a call site that expects the block interval *)
+Inductive align_source :=
+| AlignInterval        (* config.BlockInterval *)
+| AlignConfirmations   (* config.BlockConfirmations *)
+| AlignNone            (* no such call (CalculateStartingBlock is not called / the Bitcoin listener) *)
+| AlignOther.          (* any other expression: neither composed by the runner nor modelled *)
+
+(* what app.Run hands to the chain constructor as the start block *)
+Inductive chain_source :=
+| ChainStart           (* NewXChain(..., startBlock): the value derived above *)
+| ChainConfigured      (* NewXChain(..., config.StartBlock); not modelled: GetStartBlock may return that very
+                          *big.Int and CalculateStartingBlock works in place, so the configured value may
+                          have been aligned by then (the runner composes the real calls on one pointer) *)
+| ChainNil             (* NewXChain(..., nil) / no start-block parameter *)
+| ChainOther.          (* any other expression: neither composed by the runner nor modelled *)
+
 Record wiring := {
   reads_store : bool;            (* startBlock, err := blockstore.GetStartBlock(...) *)
   head_if_nil : bool;            (* if startBlock == nil { startBlock = client.LatestBlock() } *)
-  aligns_to_interval : bool;     (* startBlock, err = chains.CalculateStartingBlock(startBlock, BlockInterval) *)
-  passes_start_to_chain : bool   (* NewXChain(..., startBlock) and PollEvents hands it to the listener *)
+  align_arg : align_source;      (* startBlock, err = chains.CalculateStartingBlock(startBlock, <align_arg>) *)
+  aligns_known : bool;           (* ... and the value read from the store / configuration goes through that call *)
+  aligns_head : bool;            (* ... and the head substituted for nil goes through that call
+                                    (both false when align_arg = AlignNone) *)
+  chain_arg : chain_source;      (* NewXChain(..., <chain_arg>) and PollEvents hands it to the listener *)
+  steps_by_interval : bool       (* NewEVMListener / NewSubstrateListener (..., config.BlockInterval); Bitcoin: the
+                                    listener is built over the configuration.  The scan loops below step by
+                                    [ival c]: they model the code only for wirings with this flag (wiring_ok). *)
 }.
+
+(* the two flags the record used to consist of *)
+Definition aligns_to_interval (w : wiring) : bool :=
+  match align_arg w with AlignInterval => aligns_known w && aligns_head w | _ => false end.
+Definition passes_start_to_chain (w : wiring) : bool :=
+  match chain_arg w with ChainStart => true | _ => false end.
 
 Record cfg := {
   kd : kind;
@@ -57,20 +86,43 @@ Definition get_start_block (stored : option Z) (c : cfg) : option Z :=
 Inductive boot_result :=
 | BReady (cur : option Z)   (* PollEvents -> ListenToEvents(ctx, cur) *)
 | BNeedHead                 (* app.Run itself asks the node for the head first *)
-| BDead.                    (* CalculateStartingBlock(nil, _) -> error -> panic: never starts *)
+| BDead.                    (* CalculateStartingBlock(nil, _) -> error -> panic, or a zero modulus: never starts *)
 
+(* chains.CalculateStartingBlock(v, d) = v - v mod d with d as app.Run chooses it.  big.Int.Mod panics
+   on a zero modulus: [align_dead] (the block interval is >= 1: wf_cfg and the configuration loader;
+   confirmation depths are >= 0). *)
+Definition align_by (w : wiring) (c : cfg) (v : Z) : Z :=
+  match align_arg w with
+  | AlignInterval => align v (ival c)
+  | AlignConfirmations => if 1 <=? conf c then align v (conf c) else v
+  | _ => v
+  end.
+
+Definition align_dead (w : wiring) (c : cfg) : bool :=
+  match align_arg w with AlignConfirmations => conf c <=? 0 | _ => false end.
+
+(* a start block known before the node is asked (block store / configuration) *)
 Definition app_align (w : wiring) (c : cfg) (v : Z) : Z :=
-  if aligns_to_interval w then align v (ival c) else v.
+  if aligns_known w then align_by w c v else v.
 
-Definition to_chain (w : wiring) (v : Z) : option Z :=
-  if passes_start_to_chain w then Some v else None.
+(* the head substituted for a nil start block *)
+Definition app_align_head (w : wiring) (c : cfg) (h : Z) : Z :=
+  if aligns_head w then align_by w c h else h.
+
+Definition to_chain (w : wiring) (c : cfg) (v : option Z) : option Z :=
+  match chain_arg w with
+  | ChainStart => v
+  | ChainConfigured => Some (cstart c)
+  | _ => None
+  end.
 
 Definition boot (w : wiring) (c : cfg) (stored : option Z) : boot_result :=
   match (if reads_store w then get_start_block stored c else None) with
   | None => if head_if_nil w then BNeedHead
-            else if aligns_to_interval w then BDead
-            else BReady None
-  | Some v => BReady (to_chain w (app_align w c v))
+            else if aligns_known w then BDead
+            else BReady (to_chain w c None)
+  | Some v => if aligns_known w && align_dead w c then BDead
+              else BReady (to_chain w c (Some (app_align w c v)))
   end.
 
 (* ---- the scan loop --------------------------------------------------------------------------- *)
@@ -129,7 +181,10 @@ Definition step (w : wiring) (c : cfg) (s : st) (e : ev) : st * list out :=
     | PBoot =>
         match e with
         | Head h =>
-            let cur := to_chain w (app_align w c h) in
+            if aligns_head w && align_dead w c
+            then ({| s_pc := PDead; s_cur := None; s_stored := s_stored s |}, [])
+            else
+            let cur := to_chain w c (Some (app_align_head w c h)) in
             ({| s_pc := PPoll; s_cur := cur; s_stored := s_stored s |}, [OStart cur])
         | _ => (s, [])   (* RpcFail: app.Run panics, the process starts again: same state *)
         end
@@ -180,12 +235,17 @@ Definition run (w : wiring) (c : cfg) (stored0 : option Z) (evs : list ev) : lis
 
 (* ---- the wiring conditions ------------------------------------------------------------------ *)
 
-(* C05: the persisted cursor is read and reaches the listener. *)
-Definition wiring_ok (w : wiring) : bool := reads_store w && passes_start_to_chain w.
+(* C05: the persisted cursor is read and reaches the listener (and, if it is aligned on the way, then
+   to the block interval, by which the listener steps). *)
+Definition align_safe (w : wiring) : bool :=
+  match align_arg w with AlignInterval | AlignNone => true | _ => false end.
+
+Definition wiring_ok (w : wiring) : bool :=
+  reads_store w && passes_start_to_chain w && align_safe w && steps_by_interval w.
 
 (* C19 (interval chains): additionally every start - stored, configured or head - is aligned. *)
 Definition wiring_aligned (w : wiring) : bool :=
-  reads_store w && head_if_nil w && aligns_to_interval w && passes_start_to_chain w.
+  reads_store w && head_if_nil w && aligns_to_interval w && passes_start_to_chain w && steps_by_interval w.
 
 Definition wf_cfg (c : cfg) : bool := (1 <=? ival c) && negb (Nat.eqb (nh c) 0).
 
